@@ -8,6 +8,7 @@ import (
 	"go/token"
 	"go/types"
 	"reflect"
+	"regexp"
 	"strconv"
 	"strings"
 
@@ -39,7 +40,35 @@ func (s symStr) describe() string {
 
 // opaqueStr is text produced by formatting symbolic data for humans; it may be copied and concatenated only.
 type opaqueStr struct {
-	hint string
+	hint     string
+	nonEmpty bool // known to hold at least one character (a format with literal text, a concatenation with one)
+}
+
+var fmtVerb = regexp.MustCompile(`%[-+# 0]*(\[[0-9]+\])?[0-9*]*(\.[0-9*]+)?[a-zA-Z%]`)
+
+// formatHasLiteral reports whether a format string produces at least one character whatever its operands are.
+func formatHasLiteral(fs string) bool {
+	return strings.TrimSpace(fmtVerb.ReplaceAllString(fs, "")) != "" || strings.Contains(fs, "%%") || strings.Contains(fs, "%q")
+}
+
+func knownNonEmpty(v value) bool {
+	switch s := v.(type) {
+	case string:
+		return s != ""
+	case opaqueStr:
+		return s.nonEmpty
+	case symStr:
+		if s.itoa != nil {
+			return true
+		}
+		for _, c := range s.cases {
+			if c.s == "" {
+				return false
+			}
+		}
+		return len(s.cases) > 0
+	}
+	return false
 }
 
 // blob is the result of json.Marshal: it remembers a deep copy of the marshalled value.
@@ -561,6 +590,12 @@ func (i *interpreter) strEq(x, y value) value {
 	if sy, ok := y.(symStr); ok {
 		y = i.resolveStr(sy)
 	}
+	if o, ok := y.(opaqueStr); ok {
+		if xs, isStr := x.(string); isStr && xs == "" && o.nonEmpty {
+			return false
+		}
+		panic(unsupported("comparison of opaque string"))
+	}
 	switch xv := x.(type) {
 	case string:
 		switch yv := y.(type) {
@@ -619,15 +654,15 @@ func (i *interpreter) binopStr(op token.Token, x, y value) value {
 	switch op {
 	case token.ADD:
 		if _, ok := x.(opaqueStr); ok {
-			return opaqueStr{hint: "concat"}
+			return opaqueStr{hint: "concat", nonEmpty: knownNonEmpty(x) || knownNonEmpty(y)}
 		}
 		if _, ok := y.(opaqueStr); ok {
-			return opaqueStr{hint: "concat"}
+			return opaqueStr{hint: "concat", nonEmpty: knownNonEmpty(x) || knownNonEmpty(y)}
 		}
 		sx, okx := x.(symStr)
 		sy, oky := y.(symStr)
 		if (okx && sx.itoa != nil) || (oky && sy.itoa != nil) {
-			return opaqueStr{hint: "concat-itoa"}
+			return opaqueStr{hint: "concat-itoa", nonEmpty: true}
 		}
 		return i.liftStr2(x, y, func(a, b string) string { return a + b })
 	case token.LSS, token.LEQ, token.GTR, token.GEQ:
@@ -696,7 +731,10 @@ func (i *interpreter) eqv(t types.Type, x, y value) value {
 	case *Term:
 		return simp(tEq(xv, toTerm(y)))
 	case symStr, opaqueStr:
-		if _, ok := x.(opaqueStr); ok {
+		if o, ok := x.(opaqueStr); ok {
+			if ys, isStr := y.(string); isStr && ys == "" && o.nonEmpty {
+				return false
+			}
 			panic(unsupported("comparison of opaque string"))
 		}
 		return i.strEq(x, y)
